@@ -14,9 +14,9 @@ func init() {
 		Variant{Prop: "C06", Name: "seed-write-loop-runs-under-the-start-context", File: st, Expect: "C06.c",
 			Old: "\tctx, cancel := context.WithCancel(context.Background())\n\ts.cancel = cancel\n\tgo s.flushLoop(ctx)\n", New: "\tctx, cancel := context.WithCancel(ctx)\n\ts.cancel = cancel\n\tgo s.flushLoop(ctx)\n"},
 		Variant{Prop: "C07", Name: "seed-context-test-between-cache-move-and-append", File: ss, Expect: "C07.b",
-			Old: "\tif err := s.Store.Append(ctx, headers...); err != nil {\n\t\treturn err\n\t}\n\n\treturn nil\n}", New: "\tif err := ctx.Err(); err != nil {\n\t\treturn err\n\t}\n\tif err := s.Store.Append(ctx, headers...); err != nil {\n\t\treturn err\n\t}\n\n\treturn nil\n}"},
+			Old: "\tif err := s.Store.Append(ctx, headers...); err != nil {\n\t\t// nothing was handed", New: "\tif err := ctx.Err(); err != nil {\n\t\treturn err\n\t}\n\tif err := s.Store.Append(ctx, headers...); err != nil {\n\t\t// nothing was handed"},
 		Variant{Prop: "C03", Name: "seed-context-test-between-cache-move-and-append", File: ss, Expect: "C03.c",
-			Old: "\tif err := s.Store.Append(ctx, headers...); err != nil {\n\t\treturn err\n\t}\n\n\treturn nil\n}", New: "\tif err := ctx.Err(); err != nil {\n\t\treturn err\n\t}\n\tif err := s.Store.Append(ctx, headers...); err != nil {\n\t\treturn err\n\t}\n\n\treturn nil\n}"},
+			Old: "\tif err := s.Store.Append(ctx, headers...); err != nil {\n\t\t// nothing was handed", New: "\tif err := ctx.Err(); err != nil {\n\t\treturn err\n\t}\n\tif err := s.Store.Append(ctx, headers...); err != nil {\n\t\t// nothing was handed"},
 		Variant{Prop: "C08", Name: "seed-sequential-deletion-under-the-callers-context", File: sd, Expect: "C08.d",
 			Old: "\t\theight, missing, err = s.deleteSequential(deleteCtx, from, to)", New: "\t\theight, missing, err = s.deleteSequential(ctx, from, to)"},
 		Variant{Prop: "C17", Name: "seed-tail-moved-before-the-deletion", File: sd, Expect: "C17.a",
